@@ -8,6 +8,8 @@ alphabets.
 
 from __future__ import annotations
 
+import math
+
 import mpmath
 from mpmath import mpf
 
@@ -261,6 +263,34 @@ def run_laws(res: Result, layer, v: Vec, vsys, w: Vec, tier, only=None):
         Rq = G.quaternion_matrix(*q)
         qa = q if layer == "L1" else tuple(float(c) for c in q)
         proper(lambda o, qa=qa: o.rotate_quaternion(*qa), Rq, "rotate_quaternion", {"spelling": "rotate_quaternion", "axis": list(axis.comps), "angle": 1.75})
+
+    # exact quaternions with structural zeros and either sign of the scalar part: half turns written as pure quaternions
+    # (u = 0, 0.0, -0.0), the identity and its negative, and the eight (+-1/2, +-1/2, +-1/2, +-1/2) thirds of a turn
+    half = {"x": (1.0, 0.0, 0.0), "y": (0.0, 1.0, 0.0), "z": (0.0, 0.0, 1.0)}
+    exact_q = [((u0,) + tuple(sg * c for c in half[axn]), axn) for axn in "xyz" for u0 in (0, 0.0, -0.0) for sg in (1.0, -1.0)]
+    exact_q += [((1.0, 0.0, 0.0, 0.0), None), ((-1.0, 0.0, 0.0, 0.0), None), ((1, 0, 0, 0), None)]
+    exact_q += [((su * 0.5, si * 0.5, 0.5, sk * 0.5), None) for su in (1, -1) for si in (1, -1) for sk in (1, -1)]
+    if dim >= 3:
+        for q, axn in exact_q:
+            Rq = G.quaternion_matrix(*[mpf(c) for c in q])
+            qa = tuple(mpf(c) for c in q) if layer == "L1" else q
+            case = {"spelling": "rotate_quaternion", "quaternion": [repr(c) for c in q]}
+            proper(lambda o, qa=qa: o.rotate_quaternion(*qa), Rq, "rotate_quaternion|exact", case)
+
+            def f_exact(qa=qa, Rq=Rq, axn=axn, q=q):
+                V = W.mk(layer, v, vsys)
+                need_rot(Rq, gv, vsys)
+                r1 = V.rotate_quaternion(*qa)
+                want = G.apply(Rq, gv) if hasattr(G, "apply") else None
+                if want is not None and not W.vclose(W.cart(r1)[:3], list(want)[:3], scale, layer):
+                    return f"rotate_quaternion{q} = {W.fmt(W.cart(r1))} but the rotation matrix of the quaternion gives {W.fmt(list(want))}"
+                if axn is not None:
+                    r2 = getattr(V, ROT[axn])(mpmath.pi if layer == "L1" else math.pi)
+                    if not W.vclose(W.cart(r1), W.cart(r2), scale, layer):
+                        return f"the half turn rotate_quaternion{q} = {W.fmt(W.cart(r1))} but {ROT[axn]}(pi) = {W.fmt(W.cart(r2))}"
+                return None
+
+            law("quaternion_exact", "exact", f_exact, case)
 
     # ------------------------------------------------------------------ Euler angles and nautical angles
     triples = A.EULER_TRIPLES_T if tier == "thorough" else A.EULER_TRIPLES_Q
